@@ -25,6 +25,11 @@ pub enum RAct {
         #[serde(default)]
         combo: bool,
     },
+    /// the holder of `role` tries to hand it to nobody (an empty address string). Refused on a tree that does not
+    /// allow a vacant role; if it is accepted, nobody holds the role afterwards and every sender is outside it
+    Vacate {
+        role: String,
+    },
     TogglePause,
     ToggleOpen,
     Probe,
@@ -313,6 +318,11 @@ impl Model for RoleModel {
             if let Some(o) = orig {
                 ts.push(o);
             }
+            if s.roles.cur[r].is_empty() {
+                // a vacated role has no holder who could transfer it
+                continue;
+            }
+            a.push(RAct::Vacate { role: r.to_string() });
             for t in ts {
                 if s.roles.cur[r] != t {
                     a.push(RAct::Transfer { role: r.to_string(), to: t.clone(), combo: false });
@@ -322,8 +332,12 @@ impl Model for RoleModel {
                 }
             }
         }
-        a.push(RAct::TogglePause);
-        a.push(RAct::ToggleOpen);
+        if !s.roles.cur["pauser"].is_empty() {
+            a.push(RAct::TogglePause);
+        }
+        if !s.roles.cur["vamm_owner"].is_empty() {
+            a.push(RAct::ToggleOpen);
+        }
         a
     }
     fn step(&self, ctx: &mut RCtx, s: &RSt, a: &RAct, out: &mut StepOut) -> Option<RSt> {
@@ -345,6 +359,25 @@ impl Model for RoleModel {
                 roles.prev.entry(role.clone()).or_default().push(old);
                 let p = roles.prev.get_mut(role).unwrap();
                 p.retain(|x| x != to);
+                p.sort();
+                p.dedup();
+            }
+            RAct::Vacate { role } => {
+                let signer = transfer_signer(&roles, role);
+                if signer.is_empty() {
+                    return None;
+                }
+                let (addr, msg) = transfer_msg(w, role, "", false);
+                let o = w.exec_json(&signer, &addr, &msg);
+                out.executions += 1;
+                if !o.ok {
+                    out.tag("c09:vacating-a-role-refused");
+                    return None;
+                }
+                out.tag("c09:vacating-a-role-accepted");
+                let old = roles.cur.insert(role.clone(), String::new()).unwrap();
+                let p = roles.prev.entry(role.clone()).or_default();
+                p.push(old);
                 p.sort();
                 p.dedup();
             }
@@ -392,6 +425,8 @@ impl Model for RoleModel {
         senders.insert(w.engine.to_string());
         senders.insert(w.ifund.to_string());
         senders.insert(w.vamms[1].to_string());
+        // a vacated role has no holder to send anything
+        senders.remove("");
         for c in &cs {
             let allowed: BTreeSet<String> = c
                 .allowed
